@@ -1,5 +1,5 @@
 \* GENERATED by gen_uricmp_cfgs.py
-\* all ordered pairs over parameter and header lists (one core), plain and with names / values re-cased.
+\* DRIFT ONLY: values that are not tokens (the list parser fails, the URIs compare as different).
 SPECIFICATION Spec
 CONSTANTS
   OffsMod = 65536
@@ -10,19 +10,19 @@ CONSTANTS
   PwI = {1}
   HostI = {1}
   PortI = {1}
-  PNameI = {1, 2, 7}
-  PValI = {1, 2}
+  PNameI = {1, 7}
+  PValI = {2, 6}
   KP = 2
   HNameI = {1, 3}
-  HValI = {2}
+  HValI = {2, 6}
   KH = 1
   XNameI = {}
   XValI = {}
   Whichs = {}
-  RCMasks = {0, 28}
+  RCMasks = {0}
   RCModes = {0}
   Swaps = {0}
   Revs = {0}
   Dups = FALSE
-INVARIANTS Emit Reflexive Symmetric CaseInsensitive OrderInsensitive FlagMonotone EntryPointsAgree DemandOnModel GenSane
+INVARIANTS Emit EntryPointsAgree GenSane
 CHECK_DEADLOCK FALSE
